@@ -505,6 +505,21 @@ func genReq(t *rapid.T) c20Req {
 	return r
 }
 
+// closeServer shuts a test server down without waiting for requests the handler never
+// answers (httptest's Close blocks until every outstanding request is done).
+func closeServer(srv *httptest.Server) {
+	done := make(chan struct{})
+	go func() {
+		srv.CloseClientConnections()
+		srv.Close()
+		close(done)
+	}()
+	select {
+	case <-done:
+	case <-time.After(5 * time.Second):
+	}
+}
+
 // timeoutIsHarness: the client's time limit is there to keep a wedged run from hanging; on a
 // machine that is merely too busy it says nothing about the handler.
 func timeoutIsHarness(err error) string {
@@ -520,7 +535,7 @@ func c20Oracle(c c20Case) error {
 	defer w.shutdown()
 	w.churn(c.Churn, c.Burst)
 	srv := httptest.NewServer(http.HandlerFunc(webstack.SnapshotHandler))
-	defer srv.Close()
+	defer closeServer(srv)
 	st := statsFor("C20")
 	// library snapshots interleaved with the requests
 	states, _, err := c20Library(w)
@@ -645,7 +660,7 @@ func c20Big(extra int) error {
 		return fmt.Errorf("HARNESS: dump of %d goroutines is only %d bytes", extra, size)
 	}
 	srv := httptest.NewServer(http.HandlerFunc(webstack.SnapshotHandler))
-	defer srv.Close()
+	defer closeServer(srv)
 	client := &http.Client{Timeout: 120 * time.Second}
 	for _, maxmem := range []int{size + 300001, size*3/2 + 7, 2*size + 1, 64 << 20} {
 		resp, err := client.Get(fmt.Sprintf("%s/debug?augment=0&maxmem=%d", srv.URL, maxmem))
@@ -713,8 +728,8 @@ func c20Grid() error {
 	w := newWorkload(1)
 	defer w.shutdown()
 	srv := httptest.NewServer(http.HandlerFunc(webstack.SnapshotHandler))
-	defer srv.Close()
-	client := &http.Client{Timeout: 120 * time.Second}
+	defer closeServer(srv)
+	client := &http.Client{Timeout: 60 * time.Second}
 	opt := func(v string) *string {
 		if v == "-" {
 			return nil
@@ -727,8 +742,18 @@ func c20Grid() error {
 			for _, si := range []string{"-", "", "anyvalue", "exactflags", "alike"} {
 				r := c20Req{Method: "GET", Maxmem: opt(mm), Augment: opt(au), Similarity: opt(si)}
 				resp, err := client.Get(srv.URL + "/debug?" + r.query())
+				if err != nil && timeoutIsHarness(err) != "" {
+					// One request at a time against thirty parked goroutines takes milliseconds.
+					// No answer within 60 s is confirmed once with a longer limit; a second
+					// silence is the handler not answering, not a busy machine.
+					statsFor("C20").note("a sequential request got no answer within 60s; retrying with 240s")
+					resp, err = (&http.Client{Timeout: 240 * time.Second}).Get(srv.URL + "/debug?" + r.query())
+					if err != nil && timeoutIsHarness(err) != "" {
+						return fmt.Errorf("GET ?%s (request %d of a sequential session, after %d answered ones) got no answer within 60 s and again within 240 s", r.query(), n+1, n)
+					}
+				}
 				if err != nil {
-					return fmt.Errorf("%sGET ?%s: %v", timeoutIsHarness(err), r.query(), err)
+					return fmt.Errorf("GET ?%s: %v", r.query(), err)
 				}
 				body, rerr := io.ReadAll(resp.Body)
 				resp.Body.Close()
@@ -754,6 +779,15 @@ func init() {
 }
 
 func TestC20(t *testing.T) {
+	// the sequential grid first: its verdicts do not depend on how busy the machine is
+	if cfg.Shard == 1%cfg.NShards {
+		if err := guard(c20Grid); err != nil {
+			inconclusiveIfHarness("C20/grid", err)
+			statsFor("C20").markFailed()
+			p := saveReplay("C20", "C20/grid", map[string]int{}, err)
+			t.Fatalf("property C20 violated (C20/grid): %v\nreplay=%s", err, p)
+		}
+	}
 	c := c20
 	c.Checks = n(8, 120)
 	c.Run(t)
@@ -763,14 +797,6 @@ func TestC20(t *testing.T) {
 	f := c20First
 	f.Checks = n(6, 120)
 	f.Run(t)
-	if cfg.Shard == 1%cfg.NShards {
-		if err := guard(c20Grid); err != nil {
-			inconclusiveIfHarness("C20/grid", err)
-			statsFor("C20").markFailed()
-			p := saveReplay("C20", "C20/grid", map[string]int{}, err)
-			t.Fatalf("property C20 violated (C20/grid): %v\nreplay=%s", err, p)
-		}
-	}
 	if cfg.Shard == 0 {
 		extra := 6000
 		if err := guard(func() error { return c20Big(extra) }); err != nil {
